@@ -89,8 +89,6 @@ Definition parse_wire (ids : idtab) (w : bytes) := parse_frames (length w) ids 0
 
 (* ---------- small list tools ---------- *)
 
-Definition inb (p : pkt) (l : list pkt) : bool := existsb (pkt_eqb p) l.
-
 Fixpoint nodupb (l : list pkt) : bool :=
   match l with [] => true | x :: r => negb (inb x r) && nodupb r end.
 
@@ -241,8 +239,6 @@ Definition model_agrees (ids : idtab) (ops : list op) (o_res : list wres) (o_len
   && beq_bytes e o_wire && Bool.eqb (last d false) o_eof.
 
 (* ---------- Stress ---------- *)
-
-Definition owned (ps : list pkt) (l : list pkt) : list pkt := filter (fun p => inb p ps) l.
 
 Fixpoint index_of (p : pkt) (l : list pkt) : nat :=
   match l with [] => O | x :: r => if pkt_eqb p x then O else S (index_of p r) end.
